@@ -224,11 +224,11 @@ def coq_eval_verdicts(pid, tag, imports, case_type, case_terms, verdict_fn, shar
     if n == 0:
         return {}, []
     shards = max(1, min(shards, (n + 49) // 50))
-    per = (n + shards - 1) // shards
     jobs = []
     for k in range(shards):
-        lo, hi = k * per, min(n, (k + 1) * per)
-        if lo >= hi:
+        # round-robin: streams often put their heavy cases first, contiguous blocks would leave one shard with all of them
+        members = list(range(k, n, shards))
+        if not members:
             continue
         path = os.path.join(d, f'{tag}_{k}.v')
         with open(path, 'w') as f:
@@ -236,19 +236,19 @@ def coq_eval_verdicts(pid, tag, imports, case_type, case_terms, verdict_fn, shar
             f.write('Open Scope N_scope. Open Scope list_scope.\n')
             f.write(preamble + '\n')
             f.write(f'Definition cases : list ({case_type}) := [\n')
-            f.write(';\n'.join(case_terms[lo:hi]))
+            f.write(';\n'.join(case_terms[i] for i in members))
             f.write('\n].\n')
             f.write(f'Definition vfn : {case_type} -> N := {verdict_fn}.\n')
             f.write('Fixpoint nz (l : list (' + case_type + ')) (i : N) : list (N * N) := match l with [] => [] | c :: t => '
                     'let v := vfn c in if N.eqb v 0 then nz t (i + 1) else (i, v) :: nz t (i + 1) end.\n')
             f.write('Eval vm_compute in nz cases 0.\n')
-        jobs.append((path, lo))
+        jobs.append((path, members))
     res = {}
     errors = []
     with concurrent.futures.ThreadPoolExecutor(max_workers=NPROC) as ex:
-        futs = {ex.submit(coqc_file, p, timeout): (p, lo) for p, lo in jobs}
+        futs = {ex.submit(coqc_file, p, timeout): (p, members) for p, members in jobs}
         for fut in concurrent.futures.as_completed(futs):
-            p, lo = futs[fut]
+            p, members = futs[fut]
             rc, out, _ = fut.result()
             if rc != 0:
                 errors.append(f'{os.path.basename(p)}: rc={rc}: {out[-800:]}')
@@ -258,7 +258,7 @@ def coq_eval_verdicts(pid, tag, imports, case_type, case_terms, verdict_fn, shar
                 errors.append(f'{os.path.basename(p)}: unparsable output: {out[-400:]}')
                 continue
             for a, b in re.findall(r'\((\d+),\s*(\d+)\)', m.group(1)):
-                res[lo + int(a)] = int(b)
+                res[members[int(a)]] = int(b)
     return res, errors
 
 
